@@ -599,6 +599,10 @@ var c09Text = []struct{ prog, want string }{
 	// a store to a member named like a method creates the member (the method is looked up only when there is no such member)
 	{"BEGIN { o = {}; o.length = 3; o.sort = 's'; o.upper = o.length + 1; print o, o.length, o.sort, o.upper }", "{\"length\": 3, \"sort\": \"s\", \"upper\": 4} 3 s 4\n"},
 	{"BEGIN { o = {k: 1}; print o.length(), o.pluck('k'); o.length = 'own'; o['pluck'] = 2; o.contains = [1]; print o.length, o }", "1 {\"k\": 1}\nown {\"contains\": [1], \"k\": 1, \"length\": \"own\", \"pluck\": 2}\n"},
+	// sort() gives a new array with cells of its own: a store into either leaves the other (and the document) alone
+	{"BEGIN { a = [3, 1, 2]; s = a.sort(); s[0] = 99; a[1] = 7; s[2]++; print a, s; b = a.sort().sort(); b[0] = 'b'; print a, b }", "[3, 7, 2] [99, 2, 4]\n[3, 7, 2] [\"b\", 3, 7]\n"},
+	{"{ t = [$.v, $.i, $.a]; s = t.sort(); s[0] = 'x'; s[1] += 100; t[2]--; print t, s, $.v, $.i, $.a }", "[7, 2, 2] [\"x\", 103, 7] 7 2 3\n[8, 5, 2] [\"x\", 105, 8] 8 5 3\n"},
+	{"{ $.list = [$.v, $.i]; s = $.list.sort(); s[0] = 0; s[1] = [s[1]]; print $.list, s }", "[7, 2] [0, [7]]\n[8, 5] [0, [8]]\n"},
 	// a location created by the right-hand side of the assignment is kept, not replaced
 	{"BEGIN { o = {}; o.b.x = o.b.y = 1; a[1].p = a[1].q = a[0] = 2; print o, a }", "{\"b\": {\"x\": 1, \"y\": 1}} [2, {\"p\": 2, \"q\": 2}]\n"},
 	{"function side() { $.m.made = $.i; return 'r' } { $.m.res = side(); print $.m }", "{\"made\": 2, \"res\": \"r\"}\n{\"made\": 5, \"res\": \"r\"}\n"},
